@@ -37,6 +37,9 @@ func NewTransformsFromConfig(transformConfigs []bconfig.LogTransformConfigHolder
 // VerifyTransformConfigs verifies a list of transform configurations
 func VerifyTransformConfigs(transformConfigs []bconfig.LogTransformConfigHolder, schema base.LogSchema, header string) error {
 	for i, tfc := range transformConfigs {
+		if tfc.Value == nil {
+			return fmt.Errorf("%s[%d] is unspecified", header, i)
+		}
 		err := tfc.Value.VerifyConfig(schema)
 		if err != nil {
 			return fmt.Errorf("%s[%d] %s: %w", header, i, tfc.Location, err)
